@@ -118,3 +118,17 @@ def _e_store_reader():
     for n in range(0, 6):
         for mp in [None, 1, 2, 3, 4, 5, 6]:
             yield concrete_inputs(dict(labels=[f'L{i}' for i in range(n)], max_persist=mp))
+
+
+@enum('axis_window_items', 'Series of 0..4 rows x size 1..3 x step 0..2 x start_shift, label_shift in [-2,2] x size_increment in [-1,1] x window_sized')
+def _e_windows():
+    from specs.t2_windows import concrete_inputs
+    for n in range(0, 5):
+        for size in (1, 2, 3):
+            for step in (0, 1, 2):
+                for ss in (-2, -1, 0, 1, 2):
+                    for ls in (-2, -1, 0, 1, 2):
+                        for inc in (-1, 0, 1):
+                            for ws in (True, False):
+                                yield concrete_inputs(dict(source={'_index': {'_len': n}}, size=size, axis=0, step=step, window_sized=ws,
+                                                           label_shift=ls, start_shift=ss, size_increment=inc))
